@@ -130,6 +130,10 @@ fn judge(case: &str, mode: &str, model: &str, imp: &str) -> Option<Failure> {
     if canon(model) == canon(imp) {
         return None;
     }
+    // `ok *` from the Model matches any `ok …` reply of the implementation
+    if model == "ok *" && (split_oracle(imp).0 == "ok" || split_oracle(imp).0.starts_with("ok ")) {
+        return None;
+    }
     let ic = class(imp);
     let crash = matches!(ic.as_str(), "panic" | "abort" | "hang");
     let signature = if crash {
